@@ -15,6 +15,9 @@ struct P2 {
 #endif
 };
 using COW = gmlc::libguarded::cow_guarded<P2>;
+// layout: { lr_guarded<shared_ptr<const P2>> m_data; std::mutex m_writeMutex; }
+#define WRITE_MUTEX_OFFSET sizeof(gmlc::libguarded::lr_guarded<std::shared_ptr<const P2>>)
+static_assert(sizeof(COW) == WRITE_MUTEX_OFFSET + sizeof(std::mutex), "layout");
 #ifndef WMODE
 #define WMODE 0   // 0 commit, 1 cancel, 2 move the handle then commit, 3 symbolic
 #endif
@@ -30,13 +33,8 @@ void vp_setup()
     vp_gset(G_THROW_AT, vp_nondet_range(0, 2));
 #endif
 }
-void vp_writer()
+VP_INLINE void writer(int mode)
 {
-#if WMODE == 3
-    int mode = vp_nondet_range(0, 2);
-#else
-    int mode = WMODE;
-#endif
 #ifdef THROWING_COPY
     bool caught = false;
     try {
@@ -75,6 +73,15 @@ void vp_writer()
 #endif
     vp_cover(vp_tid() - 1);
 }
+#ifndef WMODE_B
+#define WMODE_B 0
+#endif
+#if WMODE == 3
+void vp_writer() { writer(vp_nondet_range(0, 2)); }
+#else
+void vp_writer() { writer(WMODE); }
+#endif
+void vp_writer_b() { writer(WMODE_B); }
 void vp_reader()
 {
     int prev = 0;
@@ -101,6 +108,9 @@ void vp_reader()
 }
 void vp_final()
 {
+    vp_gset(G_THROW_AT, 0);
+    const char* wm = reinterpret_cast<const char*>(g_c) + WRITE_MUTEX_OFFSET;
+    vp_assert(vp_mutex_owner(wm) == 0, 409);                    // (c) writer lock free after commit / cancel / exception
     auto s = g_c->lock_shared();
     vp_assert(s->a == vp_g(G_COMMITS) && s->b == s->a, 407);   // no lost update, cancels leave the value untouched
     auto h = g_c->lock();                                       // writer lock is free (a leaked lock self-deadlocks here)
